@@ -501,3 +501,11 @@ PROPS["C16"]["mc"] = [{"module": "MC_C15", "cfg": "MC_C16.cfg", "workers": 8, "t
 # are replayed on a real instance and validated like any other trace
 for _p in ("C06", "C07", "C08", "C09", "C10", "C11", "C12", "C13", "C15", "C16", "C17", "C19"):
     PROPS[_p]["scripts"] = {"cfg": "MC_Node_scripts.cfg", "num": {"quick": 40, "thorough": 400}, "depth": 41}
+
+
+# C04, second sentence ("any suspicion raised is refuted ... or absorbed by the indirect probe"): complete traces of
+# 3-member clusters with every datagram of the window dropped are validated per node (conformance) with the probe
+# monitor: a suspicion raised although an Ack / ForwardedAck of the round had been received is "not absorbed"
+PROPS["C04"]["also_report"] = ["C12"]
+PROPS["C04"]["drivers"]["quick"].append({"args": ["c04", "--full", "--maxruns", "60", "--nlist", "3"], "shards": 1, "monitors": ["C12"]})
+PROPS["C04"]["drivers"]["thorough"].append({"args": ["c04", "--full", "--maxruns", "150", "--nlist", "3,4"], "shards": 3, "monitors": ["C12"]})
